@@ -1088,8 +1088,9 @@ class TransformableFuture(concurrent.Future):
         return self._transform_function(self._result)
 
     def _internal_callback(self, future):
-        self._result = future.result()
         self._exception = future.exception()
+        if self._exception is None:
+            self._result = future.result()
         if self._upstream_callback is not None:
             self._upstream_callback(self)
 
